@@ -96,6 +96,21 @@ def _alias_tables(ctx: Ctx, init: Func):
                         if stores:
                             t0 = [t for t in stores[0].targets if isinstance(t, ast.Subscript)][0]
                             gens = [(m, [t0.slice, stores[0].value], stores[0])]
+                        else:
+                            # the store is made by a thin setter of the registry (`registry._add_alias(ref, codec)`: `self._protocols[ref] = codec`)
+                            from ..flow import bind_arg as _ba
+                            for cst in [x for x in ast.walk(ast.Module(body=m.body, type_ignores=[])) if isinstance(x, ast.Call)]:
+                                hs_, _ = prog.callees(g, cst, ctx._types)
+                                for h_ in hs_:
+                                    if not h_.module.name.startswith("dds"):
+                                        continue
+                                    sets_ = [st for st in h_.own_nodes() if isinstance(st, ast.Assign) and len(st.targets) == 1 and isinstance(st.targets[0], ast.Subscript)
+                                             and isinstance(st.targets[0].slice, ast.Name) and isinstance(st.value, ast.Name) and st.targets[0].slice.id in h_.params and st.value.id in h_.params]
+                                    if len(sets_) == 1:
+                                        ka = _ba(h_, cst, sets_[0].targets[0].slice.id)
+                                        va = _ba(h_, cst, sets_[0].value.id)
+                                        if len(ka) == 1 and len(va) == 1:
+                                            gens = [(m, [ka[0], va[0]], cst)]
                     for (gen, (kx, vx), where) in gens:
                         it = gen.iter
                         if not (isinstance(it, ast.Call) and isinstance(it.func, ast.Attribute) and it.func.attr == "items"
@@ -764,6 +779,21 @@ def run(ctx: Ctx) -> None:
                 rc = ctx.types.receiver_class(g.module.name, n.value.value)
                 if rc in (None, reg.qname):
                     outside.setdefault(n.value.attr, []).append((g, n))
+    # ... or calls, from outside, of a thin setter of the registry (`def _add_alias(self, ref, codec): self._protocols[ref] = codec`)
+    setters = {}
+    for m_ in reg.methods.values():
+        body_ = [st for st in m_.node.body if not (isinstance(st, ast.Expr) and isinstance(st.value, ast.Constant))]
+        if len(body_) == 1 and isinstance(body_[0], ast.Assign) and len(body_[0].targets) == 1 and isinstance(body_[0].targets[0], ast.Subscript) \
+                and isinstance(body_[0].targets[0].value, ast.Attribute) and body_[0].targets[0].value.attr in reg_attrs and isinstance(body_[0].value, ast.Name) and body_[0].value.id in m_.params:
+            setters[m_.name] = body_[0].targets[0].value.attr
+    for g in prog.funcs.values():
+        if g.cls is reg or (g.parent is not None and g.parent.cls is reg):
+            continue
+        for n in g.own_nodes():
+            if isinstance(n, ast.Call) and isinstance(n.func, ast.Attribute) and n.func.attr in setters:
+                hs_, _ = prog.callees(g, n, ctx._types)
+                if any(h_.cls is reg for h_ in hs_) or not hs_:
+                    outside.setdefault(setters[n.func.attr], []).append((g, n))
     n6 = 0
     for tab, sites in sorted(outside.items()):
         n6 += 1
